@@ -635,7 +635,9 @@ class NpyArray:
             truncate = True
 
         self.fs = None
-        if truncate is False and os.path.exists(self.filename):
+        # An existing but empty file has been created by an array that was never written to
+        if truncate is False and os.path.exists(self.filename) \
+                and os.path.getsize(self.filename) > 0:
             self.fs = open(self.filename, 'r+b')
             self._init_from_file_header()
         else:
